@@ -410,7 +410,7 @@ package parse
 //@   loop 0 invariant forall(k, 0, loopidx+1, node_prefix(imports(n)[k]) != pfx)
 //@ func (*node).GetModuleByPrefix
 //@   requires n != nil && n.tree != nil && n.tree.Root != nil
-//@   modifies *
+//@   modifies mapof(modules)
 //@   ensures implies(pfx == "" || old(node_prefix(n.tree.Root)) == pfx, result0 == old(n.tree.Root) && result1 == nil)
 //@   ensures implies(pfx != "" && old(node_prefix(n.tree.Root)) != pfx && !skipUnknown &&
 //@           !old(exists(k, 0, len(imports(n.tree.Root)), node_prefix(imports(n.tree.Root)[k]) == pfx)), result1 != nil)
@@ -424,24 +424,21 @@ package parse
 //@   ensures implies(node_usesroot(n) == nil && node_root(n) == nil, result1 != nil)
 //@ func (Namespace).GetModuleByPrefix
 //@   params pfx modules skipUnknown
-//@   modifies *
-//@   keeps map[string]bool
-//@   keeps map[Node]bool
-//@   keeps compile.Compiler.typedefChain
+//@   modifies mapof(modules)
 //@   ensures result0 == node_mod_by_prefix(self, pfx) && result1 == node_mod_by_prefix_err(self, pfx)
 //@ func (*node).YangPrefixToNamespace
 //@   requires n != nil && n.tree != nil && n.tree.Root != nil
-//@   modifies *
+//@   modifies mapof(modules)
 //@   ensures implies(prefix != "" && old(node_prefix(n.tree.Root) == prefix) && node_root(old(n.tree.Root)) != nil, result1 == nil && result0 == node_ns(node_root(old(n.tree.Root))))
 //@   ensures implies(prefix != "" && old(node_prefix(n.tree.Root) != prefix) && !skipUnknown &&
 //@           !old(exists(k, 0, len(imports(n.tree.Root)), node_prefix(imports(n.tree.Root)[k]) == prefix)), result1 != nil)
+// createFakeModule parses a generated stub module: it only allocates new objects.
 //@ func createFakeModule
 //@   assumed
-//@   modifies *
-//@   ensures result != nil
+//@   ensures result != nil && isfresh(result)
 //@ func (Namespace).YangPrefixToNamespace
 //@   params prefix modules skipUnknown
-//@   modifies *
+//@   modifies mapof(modules)
 //@   ensures result0 == node_pfx_ns(self, prefix) && result1 == node_pfx_err(self, prefix)
 //@ func (Node).Path
 //@   ensures result == node_path(self)
